@@ -157,7 +157,7 @@ type cxTok struct {
 
 func cxLex(src string) ([]cxTok, bool) {
 	var out []cxTok
-	ops := []string{"<<", ">>", "||", "&&", "==", "!=", "<=", ">=", "<", ">", "?", ":", "(", ")", "+", "-", "!", "~", ",", "*", "/", "%", "&", "|", "^", "=", ";", "."}
+	ops := []string{"<<", ">>", "||", "&&", "==", "!=", "<=", ">=", "<", ">", "?", ":", "(", ")", "+", "-", "!", "~", ",", "*", "/", "%", "&", "|", "^", "=", ";", ".", "[", "]"}
 	for i := 0; i < len(src); {
 		ch := src[i]
 		switch {
@@ -271,6 +271,9 @@ func (p *cxParser) unary() *cxNode {
 			return &cxNode{op: "unary", s: u, args: []*cxNode{p.unary()}}
 		}
 	}
+	if p.eat("&") {
+		return &cxNode{op: "addr", args: []*cxNode{p.unary()}}
+	}
 	if p.peek().k == "op" && p.peek().s == "(" {
 		// cast?
 		if t := p.t[p.i+1]; t.k == "id" {
@@ -339,16 +342,26 @@ func (p *cxParser) unary() *cxNode {
 }
 
 func (p *cxParser) postfix(e *cxNode) *cxNode {
-	for p.eat(".") {
-		f := p.peek()
-		if f.k != "id" {
-			p.fail("member name expected")
+	for {
+		switch {
+		case p.eat("."):
+			f := p.peek()
+			if f.k != "id" {
+				p.fail("member name expected")
+				return e
+			}
+			p.i++
+			e = &cxNode{op: "member", s: f.s, args: []*cxNode{e}}
+		case p.eat("["):
+			idx := p.ternary()
+			if !p.eat("]") {
+				p.fail("`]` expected")
+			}
+			e = &cxNode{op: "index", args: []*cxNode{e, idx}}
+		default:
 			return e
 		}
-		p.i++
-		e = &cxNode{op: "member", s: f.s, args: []*cxNode{e}}
 	}
-	return e
 }
 
 // ---- evaluation
@@ -1174,5 +1187,383 @@ func c03TemplateSemantics(c *Ctx, p *Prog, by map[string]TemplArm) map[string]bo
 		c.Check(len(bad) == 0 && cases > 0, rule, m, loc, fmt.Sprintf("%d operand tuples: defined in C and equal to WebAssembly's result", cases), "evaluating `"+stmts[0]+"` with C's typing rules: "+strings.Join(bad, "; "))
 	}
 	c.Min(rule, "numeric arms of wat2c evaluated", n, 95)
+	return decided
+}
+
+// ---- statements over memory: loads and stores
+
+// cMemWorld: registers (64-bit unions), the narrow temporaries of the generated function (R_u8, R_u16, R_u32), and
+// linear memory.
+type cMemWorld struct {
+	slots   map[string]uint64
+	temps   map[string]cVal
+	mem     map[uint64]byte
+	written map[uint64]byte
+	macros  map[string][2]string
+	vars    map[string]cVal
+}
+
+type cRef struct {
+	kind string // reg tmp mem
+	name string
+	addr uint64
+}
+
+func (w *cMemWorld) env() *cEnv {
+	vars := map[string]cVal{}
+	for k, v := range w.vars {
+		vars[k] = v
+	}
+	for k, v := range w.temps {
+		vars[k] = v
+	}
+	return &cEnv{slots: w.slots, vars: vars, macros: w.macros}
+}
+
+func (w *cMemWorld) ref(e *cxNode) (cRef, error) {
+	if e.op != "addr" {
+		return cRef{}, fmt.Errorf("memcpy argument is not an address")
+	}
+	x := e.args[0]
+	switch x.op {
+	case "member":
+		if x.args[0].op == "var" {
+			if _, ok := w.slots[x.args[0].s]; ok {
+				return cRef{kind: "reg", name: x.args[0].s}, nil
+			}
+		}
+	case "var":
+		if _, ok := w.temps[x.s]; ok {
+			return cRef{kind: "tmp", name: x.s}, nil
+		}
+		if _, ok := w.slots[x.s]; ok {
+			return cRef{kind: "reg", name: x.s}, nil
+		}
+	case "index":
+		if x.args[0].op == "var" && x.args[0].s == "MEM" {
+			v, err := w.env().eval(x.args[1])
+			if err != nil {
+				return cRef{}, err
+			}
+			if v.t.isFloat() {
+				return cRef{}, fmt.Errorf("memory indexed with a float")
+			}
+			a := v.i
+			if v.t.signed() {
+				a = uint64(v.sint())
+			}
+			return cRef{kind: "mem", addr: a}, nil
+		}
+	}
+	return cRef{}, fmt.Errorf("memcpy argument outside the model")
+}
+
+func (w *cMemWorld) readByte(r cRef, i int) (byte, bool) {
+	switch r.kind {
+	case "reg":
+		return byte(w.slots[r.name] >> (8 * uint(i))), i < 8
+	case "tmp":
+		t := w.temps[r.name]
+		return byte(t.i >> (8 * uint(i))), i < t.t.width()/8
+	}
+	if b, ok := w.written[r.addr+uint64(i)]; ok {
+		return b, true
+	}
+	b, ok := w.mem[r.addr+uint64(i)]
+	return b, ok
+}
+
+func (w *cMemWorld) writeByte(r cRef, i int, b byte) bool {
+	switch r.kind {
+	case "reg":
+		if i >= 8 {
+			return false
+		}
+		w.slots[r.name] = (w.slots[r.name] &^ (uint64(0xFF) << (8 * uint(i)))) | uint64(b)<<(8*uint(i))
+		return true
+	case "tmp":
+		t := w.temps[r.name]
+		if i >= t.t.width()/8 {
+			return false
+		}
+		t.i = (t.i &^ (uint64(0xFF) << (8 * uint(i)))) | uint64(b)<<(8*uint(i))
+		w.temps[r.name] = t
+		return true
+	}
+	w.written[r.addr+uint64(i)] = b
+	return true
+}
+
+// run executes the statements in order.
+func (w *cMemWorld) run(stmts []string) error {
+	for _, st := range stmts {
+		toks, ok := cxLex(st)
+		if !ok {
+			return fmt.Errorf("statement not read: %s", st)
+		}
+		ps := &cxParser{t: toks}
+		lhs := ps.unary()
+		if lhs.op == "call" && lhs.s == "memcpy" {
+			if !ps.eat(";") || ps.bad != "" || len(lhs.args) != 3 {
+				return fmt.Errorf("statement not read: %s", st)
+			}
+			dst, err := w.ref(lhs.args[0])
+			if err != nil {
+				return err
+			}
+			src, err := w.ref(lhs.args[1])
+			if err != nil {
+				return err
+			}
+			nv, err := w.env().eval(lhs.args[2])
+			if err != nil {
+				return err
+			}
+			for i := 0; i < int(nv.i); i++ {
+				b, ok := w.readByte(src, i)
+				if !ok {
+					return cUB{fmt.Sprintf("memcpy reads byte %d of an object that is smaller (or of memory the rule did not lay out)", i)}
+				}
+				if !w.writeByte(dst, i, b) {
+					return cUB{fmt.Sprintf("memcpy writes byte %d of an object that is smaller", i)}
+				}
+			}
+			continue
+		}
+		if !ps.eat("=") {
+			return fmt.Errorf("statement outside the model: %s", st)
+		}
+		rhs := ps.ternary()
+		if !ps.eat(";") || ps.bad != "" || ps.peek().k != "eof" {
+			return fmt.Errorf("statement not read (%s): %s", ps.bad, st)
+		}
+		v, err := w.env().eval(rhs)
+		if err != nil {
+			return err
+		}
+		switch {
+		case lhs.op == "var":
+			t, isTmp := w.temps[lhs.s]
+			if !isTmp {
+				return fmt.Errorf("assignment to %s outside the model", lhs.s)
+			}
+			cv, err := cConvert(v, t.t)
+			if err != nil {
+				return err
+			}
+			w.temps[lhs.s] = cv
+		case lhs.op == "member" && lhs.args[0].op == "var":
+			vt, okv := cViews[lhs.s]
+			if _, isReg := w.slots[lhs.args[0].s]; !isReg || !okv {
+				return fmt.Errorf("assignment target outside the model: %s", st)
+			}
+			cv, err := cConvert(v, vt)
+			if err != nil {
+				return err
+			}
+			var bitsv uint64
+			switch vt {
+			case cF32:
+				bitsv = uint64(math.Float32bits(float32(cv.f)))
+			case cF64:
+				bitsv = math.Float64bits(cv.f)
+			default:
+				bitsv = cv.i
+			}
+			old := w.slots[lhs.args[0].s]
+			w.slots[lhs.args[0].s] = (old &^ maskBits(vt.width())) | (bitsv & maskBits(vt.width()))
+		default:
+			return fmt.Errorf("assignment target outside the model: %s", st)
+		}
+	}
+	return nil
+}
+
+var reMemPrefix = regexp.MustCompile("\x00[^\x00]*\x00_memory")
+
+// cMemTemplateStatement: like cTemplateStatement, with the memory array named MEM and the memarg offset named OFF.
+func cMemTemplateStatement(l TemplLine) string {
+	f := l.Format
+	if i := strings.Index(f, "//"); i >= 0 {
+		f = f[:i]
+	}
+	argi := 0
+	out := reCVerb.ReplaceAllStringFunc(f, func(v string) string {
+		if v == "%%" {
+			return "%"
+		}
+		a := ""
+		if argi < len(l.Args) {
+			a = l.Args[argi]
+		}
+		argi++
+		switch {
+		case v == "%s" && strings.HasPrefix(a, "indent"):
+			return ""
+		case strings.HasSuffix(a, ".Offset"):
+			return "OFF"
+		}
+		return "\x00" + a + "\x00"
+	})
+	out = reMemPrefix.ReplaceAllString(out, "MEM")
+	out = regexp.MustCompile("R\x00([A-Za-z_][A-Za-z0-9_]*)\x00").ReplaceAllString(out, "R_$1")
+	out = strings.ReplaceAll(out, "\x00", "")
+	return strings.TrimSpace(out)
+}
+
+// c03MemoryAccessSemantics: the load and store arms of wat2c, evaluated over a linear memory.
+func c03MemoryAccessSemantics(c *Ctx, p *Prog, by map[string]TemplArm) map[string]bool {
+	const rule = "c-memory-access-semantics"
+	decided := map[string]bool{}
+	const poison = uint64(0xDEADBEEF) << 32
+	pattern := []byte{0x80, 0x7F, 0xFF, 0x01, 0xFE, 0x00, 0x81, 0x55, 0xAA, 0x33}
+	n := 0
+	for _, m := range wasmSpecOrder {
+		dot := strings.IndexByte(m, '.')
+		if dot < 0 {
+			continue
+		}
+		t, op := m[:dot], m[dot+1:]
+		isLoad, isStore := strings.HasPrefix(op, "load"), strings.HasPrefix(op, "store")
+		if !isLoad && !isStore {
+			continue
+		}
+		k := "INS_" + strings.ToUpper(strings.ReplaceAll(m, ".", "_"))
+		a, ok := by[k]
+		if !ok || a.Fatal || len(a.Variants) == 0 {
+			continue
+		}
+		loc := p.Pos(a.Arm.Clause.Pos())
+		// the variant for 32-bit addresses (the one whose address slot is an i32)
+		var v *TemplVariant
+		for i := range a.Variants {
+			vv := &a.Variants[i]
+			addrIdx := 0
+			if isStore {
+				addrIdx = 1
+			}
+			pops := vv.pops()
+			if len(pops) > addrIdx && pops[addrIdx] == "i32" {
+				v = vv
+				break
+			}
+		}
+		if v == nil {
+			c.Undecided(rule, m, loc, "no variant with a 32-bit address operand")
+			continue
+		}
+		var pieces []string
+		for _, l := range v.Lines {
+			if st := cMemTemplateStatement(l); st != "" {
+				pieces = append(pieces, st)
+			}
+		}
+		var stmts []string
+		for _, st := range strings.Split(strings.Join(pieces, " "), ";") {
+			if st = strings.TrimSpace(st); st != "" {
+				stmts = append(stmts, st+";")
+			}
+		}
+		n++
+		tw := 32
+		if t == "i64" || t == "f64" {
+			tw = 64
+		}
+		nb := tw / 8
+		for _, w := range []string{"8", "16", "32"} {
+			if strings.HasPrefix(op, "load"+w) || strings.HasPrefix(op, "store"+w) {
+				nb = map[string]int{"8": 1, "16": 2, "32": 4}[w]
+			}
+		}
+		signed := strings.HasSuffix(op, "_s")
+		var bad []string
+		und := ""
+		cases := 0
+		for _, addr := range []uint64{0, 5, 0x7FFFFFF0, 0x80000000, 0xFFFFFF00} {
+			for _, off := range []int64{0, 16, 65536} {
+				for shift := 0; shift < 3 && und == ""; shift++ {
+					ea := addr + uint64(off)
+					w := &cMemWorld{slots: map[string]uint64{}, mem: map[uint64]byte{}, written: map[uint64]byte{},
+						temps: map[string]cVal{"R_u8": {t: cU8}, "R_u16": {t: cU16}, "R_u32": {t: cU32}},
+						vars:  map[string]cVal{"OFF": cMk(cI64, uint64(off))}}
+					var val uint64
+					for i := 0; i < 8; i++ {
+						b := pattern[(i+shift*3)%len(pattern)]
+						w.mem[ea+uint64(i)] = b
+						if i < nb {
+							val |= uint64(b) << (8 * uint(i))
+						}
+					}
+					cases++
+					if isLoad {
+						addrVar, retVar := v.varOf("pop", 0), v.varOf("push", 0)
+						w.slots["R_"+retVar] = 0xA5A5A5A5A5A5A5A5
+						w.slots["R_"+addrVar] = addr | poison
+						want := val
+						if signed && val>>(uint(nb*8)-1)&1 == 1 {
+							want |= ^maskBits(nb * 8)
+						}
+						want &= maskBits(tw)
+						err := w.run(stmts)
+						if ub, isUB := err.(cUB); isUB {
+							if len(bad) < 3 {
+								bad = append(bad, fmt.Sprintf("%s at address %#x offset %d: %s", m, addr, off, ub.why))
+							}
+							continue
+						}
+						if err != nil {
+							und = err.Error()
+							break
+						}
+						got := w.slots["R_"+retVar] & maskBits(tw)
+						if (got != want || len(w.written) != 0) && len(bad) < 3 {
+							bad = append(bad, fmt.Sprintf("%s at address %#x offset %d leaves %#x in the result register, WebAssembly answers %#x", m, addr, off, got, want))
+						}
+						continue
+					}
+					valVar, addrVar := v.varOf("pop", 0), v.varOf("pop", 1)
+					sv := uint64(0x8877665544332211) + uint64(shift)*0x0101010101010101
+					if tw == 32 {
+						w.slots["R_"+valVar] = (sv & 0xFFFFFFFF) | poison
+					} else {
+						w.slots["R_"+valVar] = sv
+					}
+					w.slots["R_"+addrVar] = addr | poison
+					err := w.run(stmts)
+					if ub, isUB := err.(cUB); isUB {
+						if len(bad) < 3 {
+							bad = append(bad, fmt.Sprintf("%s at address %#x offset %d: %s", m, addr, off, ub.why))
+						}
+						continue
+					}
+					if err != nil {
+						und = err.Error()
+						break
+					}
+					okw := len(w.written) == nb
+					for i := 0; i < nb && okw; i++ {
+						if b, has := w.written[ea+uint64(i)]; !has || b != byte(sv>>(8*uint(i))) {
+							okw = false
+						}
+					}
+					if !okw && len(bad) < 3 {
+						var wr []string
+						for a2, b := range w.written {
+							wr = append(wr, fmt.Sprintf("[%#x]=%02x", a2, b))
+						}
+						sortStrings(wr)
+						bad = append(bad, fmt.Sprintf("%s of %#x at address %#x offset %d writes %s; WebAssembly writes the %d low bytes at %#x", m, sv&maskBits(tw), addr, off, strings.Join(wr, " "), nb, ea))
+					}
+				}
+			}
+		}
+		if und != "" {
+			c.Undecided(rule, m, loc, und+" — statements `"+strings.Join(stmts, " ")+"`")
+			continue
+		}
+		decided[m] = true
+		c.Check(len(bad) == 0 && cases > 0, rule, m, loc, fmt.Sprintf("%d (address, offset, content) cases agree with WebAssembly", cases), "evaluating `"+strings.Join(stmts, " ")+"`: "+strings.Join(bad, "; "))
+	}
+	c.Min(rule, "load and store arms of wat2c evaluated", n, 18)
 	return decided
 }
